@@ -40,7 +40,7 @@ func pidAlive(pid int) bool {
 // RunC18: interrupts stop the build promptly and leave a recoverable state.
 func RunC18(tier string) int {
 	run := report.New("C18", tier, "fault_enumeration",
-		"seeded graphs with slow targets (commands that log their start, sleep 8 s and only then write outputs and their end marker) built by the real binary; SIGINT or SIGTERM is raised inside the process at the N-th hit of a chosen hook point (loading, lock acquisition, walker registration/start, cache lookup, just before a command is spawned, output writing, blob/result store steps, completion, shutdown) or sent from outside after a seeded delay; slow commands whose shell ignores SIGTERM; a second build interrupted while it waits for the workspace lock held by the first; "+
+		"seeded graphs with slow targets (commands that log their start, sleep 8 s and only then write outputs and their end marker) built by the real binary; SIGINT or SIGTERM is raised inside the process at the N-th hit of a chosen hook point (loading, lock acquisition, walker registration/start, cache lookup, just before a command is spawned, output writing, blob/result store steps, completion, shutdown) or sent from outside after a seeded delay; slow commands whose shell ignores SIGTERM; wide builds with 2-6 x num_workers ready targets interrupted right after the K-th command spawn; a second build interrupted while it waits for the workspace lock held by the first; "+
 			"verdicts: a command that started although its cmd.attempt event follows signal.cancelled; an interrupted command whose end marker appears before grog exits, or whose shell is still alive after grog exited; exit status 0 although selected targets were unfinished at the signal; grog still running 30 s after the signal while quiescent (hang); a follow-up build that fails, cannot take the lock, does not re-execute an interrupted target or leaves wrong bytes; "+
 			"non-trivial = signal delivered while at least one command was running or pending; distinct = placement point + hit + signal + shape")
 	st, err := e1.Prepare(run, false)
@@ -251,6 +251,8 @@ func RunC18(tier string) int {
 		}
 		run.Sample(map[string]any{"placement": placement, "signal": sig, "exit": res.Exit, "wall_ms": wall.Milliseconds(), "trace": obs.Order})
 	})
+	// wide builds (worker pool queue full at the signal): exit within the cap, non-zero
+	e1.InterruptWidePart(run, st, tierN(tier, 16, 160))
 	// same-command second scenario: the interrupted target must be re-executed by an identical follow-up build
 	e1.Parallel(tierN(tier, 12, 120), func(i int) {
 		r := rng.Derive(uint64(run.Seed), "C18-rerun", fmt.Sprint(i))
